@@ -8,6 +8,7 @@
 #include "torrent/hash_string.h"
 #include "torrent/system/callbacks.h"
 #include "utils/instrumentation.h"
+#include "utils/verif_hooks.h"
 
 namespace torrent {
 
@@ -26,6 +27,7 @@ HashCheckQueue::push_back(HashChunk* hash_chunk) {
 
   bool should_interrupt{};
 
+  LT_VERIF_SCHED("hcq_push_lock");
   {
     auto guard = std::scoped_lock(m_lock);
 
@@ -63,6 +65,7 @@ bool
 HashCheckQueue::remove(HashChunk* hash_chunk) {
   assert(std::this_thread::get_id() == main_thread::thread_id());
 
+  LT_VERIF_SCHED("hcq_remove_lock");
   auto guard = std::scoped_lock(m_lock);
 
   bool result;
@@ -88,6 +91,7 @@ HashCheckQueue::perform() {
   assert(std::this_thread::get_id() == disk_thread::thread_id());
 
   auto get_next_fn = [this]() -> HashChunk* {
+      LT_VERIF_SCHED("hcq_pop_lock");
       auto guard = std::scoped_lock(m_lock);
 
       if (empty())
